@@ -12,10 +12,13 @@ from .py_panel import build, report, GEOMS
 AF = 'compmech/panel/assembly/assembly.py:PanelAssembly.'
 
 
-def make_assembly(it, geoms, conn_spec=None, forces=0):
+PRELOAD = dict(Nxx_cte=P.const(-3), Nyy_cte=P.const(2), Nxy_cte=P.const(1))
+
+
+def make_assembly(it, geoms, conn_spec=None, forces=0, preload_panel=None):
     panels, meta = [], []
     for k, geom in enumerate(geoms):
-        p, kw, want, g = build(it, geom, 'uniform', 'none', {}, sfx='_%d' % (k + 1))
+        p, kw, want, g = build(it, geom, 'uniform', 'none', dict(PRELOAD) if k == preload_panel else {}, sfx='_%d' % (k + 1))
         panels.append(p)
         meta.append((kw, want, g))
     conn = None
@@ -86,7 +89,7 @@ def expected_term(kind, k, meta, offs, tot):
     return args, want, g['model']
 
 
-def check_matrix(led, method, kernel_names, extra_kwargs=None, with_conn=False, state=False):
+def check_matrix(led, method, kernel_names, extra_kwargs=None, with_conn=False, state=False, preload_panel=None):
     func = AF + method
     led.function(func)
     for N in (1, 2, 3):
@@ -96,10 +99,10 @@ def check_matrix(led, method, kernel_names, extra_kwargs=None, with_conn=False, 
             it, calls = py_panel.mk()
             geoms = ['plate', 'cpanel', 'plate'][:N]
             conn_spec = [(0, 1, 'SSycte')] if (with_conn and N >= 2) else ([] if with_conn else None)
-            tag = 'N=%d,finalize=%s' % (N, fin)
+            tag = 'N=%d,finalize=%s%s' % (N, fin, '' if preload_panel is None else ',panel %d pre-loaded' % (preload_panel + 1))
 
             def run():
-                asm, panels, meta, conn = make_assembly(it, geoms, conn_spec)
+                asm, panels, meta, conn = make_assembly(it, geoms, conn_spec, preload_panel=preload_panel)
                 for p in panels:
                     it.call(it.getattr(p, 'calc_k0'), [], dict(silent=True))      # panels already used once (typical history)
                 del calls[:]
@@ -146,6 +149,34 @@ def check_matrix(led, method, kernel_names, extra_kwargs=None, with_conn=False, 
                         conn_terms.append(t)
                     else:
                         probs.append('unexpected term %s' % pycheck.describe(t))
+                # ---- the connection part: exactly the (completed) connection matrix of the assembly, once; for the internal force that
+                # matrix times the caller's state
+                if with_conn:
+                    want_conn = ['fkC%s%s' % (conn_spec[0][2], blk) for blk in ('11', '12', '22')] if conn_spec else []
+                    if method == 'calc_fint':
+                        mm = [t for t in conn_terms if isinstance(t, Opaque) and t.kind == 'matmul']
+                        other = [t for t in conn_terms if not (isinstance(t, Opaque) and t.kind == 'matmul')]
+                        if other:
+                            probs.append('connection kernels added to the force vector without the state')
+                        if conn_spec and len(mm) != 1:
+                            probs.append('%d terms (connection matrix) x (state), expected one' % len(mm))
+                        for t in mm:
+                            a_, b_ = t.f['a'], t.f['b']
+                            if getattr(b_, 'name', None) != 'c':
+                                probs.append('the connection matrix multiplies %s, expected the caller state' % pycheck.describe(b_))
+                            w_, ts_ = pycheck.terms_of(a_)
+                            names_ = sorted(x.f['fn'] for k_, x in ts_ if isinstance(x, Opaque) and x.kind == 'kernel')
+                            if names_ != sorted(want_conn):
+                                probs.append('connection matrix made of %s, expected %s' % (names_, sorted(want_conn)))
+                            if want_conn and w_[:1] != ['symmetrized']:
+                                probs.append('the connection matrix that multiplies the state is not completed (kernels emit the upper triangle only): '
+                                             'the force misses the transposed coupling block')
+                    elif method != 'calc_fext':
+                        names_ = sorted(x.f['fn'] for x in conn_terms if isinstance(x, Opaque) and x.kind == 'kernel')
+                        if names_ != sorted(want_conn):
+                            probs.append('connection contribution %s, expected %s once' % (names_, sorted(want_conn)))
+                        if any(isinstance(t, Opaque) and t.kind == 'kernel' and t.f['fn'].startswith('fkC') for t in top):
+                            probs.append('a connection block is added without being completed to the symmetric matrix')
                 if method not in ('calc_fint', 'calc_fext'):
                     if fin and not sym_seen:
                         probs.append('panel contributions are not symmetrized (finalize=True)')
@@ -165,12 +196,17 @@ def check_matrix(led, method, kernel_names, extra_kwargs=None, with_conn=False, 
                         if kn == 'calc_fint':
                             args = dict(size=tot, col0=offs[k], c=None, Fnxny=None, nx=kw['m'], ny=kw['n'])
                         exp.append((k, kn, args, want, g))
+                        if k == preload_panel and kn in ('fk0', 'fkL_num'):
+                            # the pre-loaded panel adds the initial-stress matrix of its constant pre-load at the same place
+                            exp.append((k, 'fkG0', dict(size=tot, row0=offs[k], col0=offs[k], Nxx=PRELOAD['Nxx_cte'], Nyy=PRELOAD['Nyy_cte'], Nxy=PRELOAD['Nxy_cte']), want, g))
                 got = [t for t in panel_terms if isinstance(t, Opaque) and t.kind == 'kernel']
                 if len(got) != len(exp):
                     probs.append('%d panel kernel terms, expected %d (one %s per panel)' % (len(got), len(exp), '+'.join(kernel_names)))
                 else:
                     for t, (k, kn, args, want, g) in zip(got, exp):
                         model = g['model'] if kn not in ('fkL_num', 'fkG_num', 'calc_fint') else g['model'] + '_num'
+                        if kn == 'fkG0' and t.f['fn'] == 'fkG0':
+                            model = g['model']
                         cmpargs = {a: v for a, v in args.items() if v is not None}
                         d = pycheck.diff_kernel(t, kn, model, cmpargs, want)
                         d = [x for x in d if not x.startswith('unexpected argument')]
